@@ -212,6 +212,11 @@ def _check(case, r):
             out.append({'class': 'cannot_reconnect', 'detail': x})
     if r.get('sent_after_close'):
         pass   # transmissions on a closed link belong to C10
+    sy = r.get('sync')
+    if sy and not (hangs or r['dead'] or r['stuck']):
+        # quiescent end of the run: the invariant proved for the model (C02_sync_open_flag_sound)
+        if (sy['is_open'] and not (sy['link'] and sy['registered'])) or sy['disconnect_event_armed']:
+            out.append({'class': 'sync_open_flag_on_dead_link', 'detail': sy})
     evs = [e[1] for e in log if e[0] == 'ev']
     if not (hangs or r['dead'] or r['stuck']) and evs and evs[-1] in ('close', 'err'):
         if not r['link_none'] or r['state'] != 0:
